@@ -36,7 +36,6 @@ _DECODE_RULE = ("stream decode: structured offset-commit (key v0/v1, value v0/v1
                 "strings; 5 allow/deny configurations. Non-trivial = at least one storage request produced, a panic, or an allocation verdict other than ok.")
 
 PROPS["C06"] = {
-    "ready": False,
     "lean_modules": ["BurrowVerif.Props.C06"],
     "props_files": ["BurrowVerif/Props/C06.lean"],
     "anchors": ["core/internal/consumer/kafka_client.go"],
@@ -49,7 +48,6 @@ PROPS["C06"] = {
     "assumptions": ["bytes.Buffer / encoding/binary read semantics as modelled (short read = error), validated differentially"],
 }
 PROPS["C07"] = {
-    "ready": False,
     "lean_modules": ["BurrowVerif.Props.C07"],
     "props_files": ["BurrowVerif/Props/C07.lean"],
     "anchors": ["core/internal/consumer/kafka_client.go", "core/protocol/storage.go"],
